@@ -23,8 +23,8 @@ LEVEL = "exploration"
 EXHAUSTIVE = {"quick": True, "thorough": True}
 RULE = (
     "cases = (rule set out of 14 - one to three rules per command over scopes global / ip / specific IPv4 / specific IPv6 "
-    "address with n in {-1,1,2,3} and intervals s/m -, arrival sequence). ALL sequences up to length 4 (quick) / 5 "
-    "(thorough) over time steps {0, 1/2, 1, 2} x interval, 2 addresses + the specially-ruled one and 2 commands are "
+    "address with n in {-1,1,2,3} and intervals s/m -, arrival sequence). ALL sequences of length 3 for every rule set and of length 4 for four of them (quick), of length 5 for all (thorough), "
+    "over time steps {0, 1/2, 1, 2} x interval, 2 addresses + the specially-ruled one and 2 commands are "
     "enumerated; seeded random sequences of 2000 steps on top; growth runs of L and 4L messages just below the limit. "
     "Non-trivial = a sequence containing at least one refusal or a decision at an exact window boundary. Distinct = "
     "distinct (rule set, decision-relevant prefix)."
